@@ -2,7 +2,7 @@
 # re-run every kept seeded change: a scratch worktree of /repo's HEAD with the patch applied is checked through HIVE_REPO
 # (/repo itself is not touched); prints one line per seeded change.  Meant to be run from a snapshot (vp run), not from /verif
 # while other checks are running there (coq/Gen is regenerated from the tree under test).
-# usage: seed_regress.sh [shards]   — with shards > 1 the seeds are dealt round-robin to that many scratch copies of this
+# usage: [SEED_FILTER=regex] seed_regress.sh [shards]   — with shards > 1 the seeds are dealt round-robin to that many scratch copies of this
 # directory (under /var/tmp, removed afterwards) that run side by side.
 cd "$(dirname "$0")/.."
 HERE=$PWD
@@ -15,6 +15,7 @@ run_shard() {   # $1 = directory to run in, $2 = shard index
     i=$((i + 1))
     [ $(( i % SHARDS )) -eq "$2" ] || continue
     name=$(basename "$d")
+    if [ -n "$SEED_FILTER" ] && ! echo "$name" | grep -Eq "$SEED_FILTER"; then continue; fi
     prop=$(python3 -c "import json,sys; print(json.load(open('$d/meta.json'))['property'])")
     wt=/var/tmp/seedwt/$name
     git -C /repo worktree remove --force "$wt" >/dev/null 2>&1
